@@ -107,6 +107,15 @@ pub fn replay(case: &J) -> J {
             let got = real_resolve(&table, id);
             let exp = case["resolves"].as_i64().unwrap();
             if got != exp { mism.push(json!({"src": format!("resolve_unit({:?})", id), "exp": exp, "obs": got})); }
+            // the built-in resolves both of its unit arguments, also when they are the same text: it succeeds exactly when
+            // the identifier names a unit
+            if !id.contains('"') && !id.contains('\\') {
+                let s = Session::new();
+                for src in [format!("convert(5, \"{id}\", \"{id}\")"), format!("(do {{\n  u = \"{id}\"\n  return convert(5, u, u)\n}})")] {
+                    let o = s.eval(&src);
+                    if o.is_ok() != (exp >= 1) { mism.push(json!({"src": format!("{src} built-in"), "exp": exp >= 1, "obs": o.class()})); }
+                }
+            }
         }
         "pair" => {
             let (a, b) = (case["a"].as_str().unwrap(), case["b"].as_str().unwrap());
